@@ -11,6 +11,8 @@ CONSTANTS
   AllowEnd = TRUE
   MaxRequery = 0
   FixCommitState = TRUE
+  SeqSMP = FALSE
+  FixSMPReset = FALSE
 INVARIANTS TypeOK InOrderNoDup SlotBound NoSplice SMPSound NoNilKey
 PROPERTIES TamperRejected
 CHECK_DEADLOCK FALSE
